@@ -28,7 +28,7 @@ func init() {
 // runC16 is the shard driver: the register of a process cannot be reset, so
 // every history runs in its own child process (this binary, sub-mode C16H).
 func runC16(c *mon.Ctx) {
-	c.Rule("one CHILD PROCESS per history (the register cannot be reset). A history is a seeded random sequence of 12..45 operations over: RegisterProfile(new name, P1- or P2-based, sharing the JSON profile member of its base) / re-register an existing name (base profiles, earlier extras) / register a profile whose claims type has no profile field / has no json tag on it (then register the same name properly) / whose profile field is identified by its name and followed by other fields (register snapshot must record THAT field's JSON member), NewClaims(registered | unregistered), DecodeClaimsFromCBOR / JSON (token of any known or not-yet-registered profile, and documents declaring two profiles at once under the two profile members), mutate one instance (setters, writes through its pointer fields and byte slices, container Add/Replace, canonical-name overwrite), observe another. 0..8 extra profiles per history. Offline-style trace checker with model = set of successfully registered names: after EVERY registration attempt the register snapshot (hook H1) must equal the model (failed attempt: unchanged; successful: grown by exactly that entry) and a probe battery (NewClaims + CBOR decode + JSON decode for every name of the universe, registered or not) must be unchanged for every name other than the one just registered and must follow the model for that one; every created/decoded instance is a new pointer with its own container / profile pointers and its observation is unaffected by any mutation of another instance; every JSON dispatch is repeated 40x and all repetitions must agree on (error?, type, canonical profile, observation); hook H3 records the register visit order of each dispatch. Inconclusive if fewer than 2 distinct visit orders were seen. distinct_nontrivial = distinct operation-kind sequences")
+	c.Rule("one CHILD PROCESS per history (the register cannot be reset). A history is a seeded random sequence of 12..45 operations over: RegisterProfile(new name, P1- or P2-based - the latter also through a claims type embedding TWO structs, a mixin without profile field first and P2Claims second -, sharing the JSON profile member of its base) / re-register an existing name (base profiles, earlier extras) / register a profile whose claims type has no profile field / has no json tag on it (then register the same name properly) / whose profile field is identified by its name and followed by other fields (register snapshot must record THAT field's JSON member), NewClaims(registered | unregistered), DecodeClaimsFromCBOR / JSON (token of any known or not-yet-registered profile, and documents declaring two profiles at once under the two profile members), mutate one instance (setters, writes through its pointer fields and byte slices, container Add/Replace, canonical-name overwrite), observe another. 0..8 extra profiles per history. Offline-style trace checker with model = set of successfully registered names: after EVERY registration attempt the register snapshot (hook H1) must equal the model (failed attempt: unchanged; successful: grown by exactly that entry) and a probe battery (NewClaims + CBOR decode + JSON decode for every name of the universe, registered or not) must be unchanged for every name other than the one just registered and must follow the model for that one; every created/decoded instance is a new pointer with its own container / profile pointers and its observation is unaffected by any mutation of another instance; every JSON dispatch is repeated 40x and all repetitions must agree on (error?, type, canonical profile, observation); hook H3 records the register visit order of each dispatch. Inconclusive if fewer than 2 distinct visit orders were seen. distinct_nontrivial = distinct operation-kind sequences")
 	self, err := os.Executable()
 	if err != nil {
 		c.Inconclusive("cannot locate own executable: " + err.Error())
@@ -63,6 +63,7 @@ func runC16(c *mon.Ctx) {
 	c.Floor("histories-completed", 100)
 	c.Floor("registrations-ok", 200)
 	c.Floor("registrations-refused:existing-name", 100)
+	c.Floor("registrations-ok:two-embedded-structs", 10)
 	c.Floor("registrations-refused:no-profile-field", 50)
 	c.Floor("registrations-refused:no-json-tag", 50)
 	c.Floor("registrations-ok:by-name", 30)
@@ -103,6 +104,8 @@ func p2Of(x psatoken.IClaims) *psatoken.P2Claims {
 	case *psatoken.P2Claims:
 		return t
 	case *extprof.ExtP2Claims:
+		return &t.P2Claims
+	case *extprof.MixinClaims:
 		return &t.P2Claims
 	}
 	return nil
@@ -171,7 +174,11 @@ func runC16History(c *mon.Ctx) {
 	nExtra := g.R.Intn(9)
 	var cands []*c16Cand
 	mk := func(name string, base int) *c16Cand {
-		a := g.Valid(base)
+		content := base
+		if base == 3 {
+			content = 2 // profile 2 through the two-embedded-structs claims type
+		}
+		a := g.Valid(content)
 		a.Canon, a.Profile = name, model.SP(name)
 		return &c16Cand{name: name, base: base, cbor: refcbor.Encode(a.WireCBOR()), json: a.WireJSON()}
 	}
@@ -182,7 +189,10 @@ func runC16History(c *mon.Ctx) {
 			base = 1
 		}
 		if base == 2 {
-			cands = append(cands, mk(fmt.Sprintf("http://example.com/h%d/p%d", hid%1000, i), 2))
+			if i >= 2 && g.R.Intn(3) == 0 {
+				base = 3
+			}
+			cands = append(cands, mk(fmt.Sprintf("http://example.com/h%d/p%d", hid%1000, i), base))
 		} else {
 			cands = append(cands, mk(fmt.Sprintf("PSA_IOT_PROFILE_1_H%d", i), 1))
 		}
@@ -300,6 +310,9 @@ func runC16History(c *mon.Ctx) {
 	typeFor := func(base int) string {
 		if base == 1 {
 			return "*extprof.ExtP1Claims"
+		}
+		if base == 3 {
+			return "*extprof.MixinClaims"
 		}
 		return "*extprof.ExtP2Claims"
 	}
@@ -472,7 +485,10 @@ func runC16History(c *mon.Ctx) {
 						stop = true
 						return
 					}
-					if np.Base == 2 && !strings.HasPrefix(now["cbor|"+name], want+"|"+name+"|") {
+					if np.Base == 3 {
+						c.Count("registrations-ok:two-embedded-structs")
+					}
+					if np.Base >= 2 && !strings.HasPrefix(now["cbor|"+name], want+"|"+name+"|") {
 						fail("new-profile-not-effective/cbor", fmt.Sprintf("after registering %q CBOR decoding of its token gives %.120s", name, now["cbor|"+name]), nil)
 						stop = true
 						return
